@@ -712,7 +712,16 @@ func writeTypeConversion(w *formatting.IndentedWriter, typeChange dsl.TypeChange
 			return
 		}
 
-		fmt.Fprintf(w, "%s.resize(%s.size());\n", targetName, sourceName)
+		isFixedLength := false
+		if gt, ok := dsl.GetUnderlyingType(tc.NewType()).(*dsl.GeneralizedType); ok {
+			if vec, ok := gt.Dimensionality.(*dsl.Vector); ok && vec.Length != nil {
+				// std::array: the size is part of the type
+				isFixedLength = true
+			}
+		}
+		if !isFixedLength {
+			fmt.Fprintf(w, "%s.resize(%s.size());\n", targetName, sourceName)
+		}
 		fmt.Fprintf(w, "for (size_t i = 0; i < %s.size(); i++) {\n", sourceName)
 		w.Indented(func() {
 			tmpItemName := "item"
